@@ -273,6 +273,26 @@ def run(index: RepoIndex, rep) -> None:
     rep.check(gi.mul(ident, T1) == T1 and gi.mul(T1, ident) == T1, 'C18.R5', f,
               'Transform.__mul__', tl, 'identity', '((0,0), FORWARD) is not a two-sided identity')
     front_rule(index, rep, 'C18.R5', g, gi)
+    # in-place spellings of the pose operators denote the same pose as the operator
+    tcls = index.cls(f, 'Transform')
+    for iname, m in sorted(tcls.methods.items()):
+        if not (iname.startswith('__i') and iname.endswith('__') and
+                '__' + iname[3:] in tcls.methods):
+            continue
+        if iname != '__imul__':
+            raise AnalysisError(f'Transform.{iname}: in-place operator outside the grammar')
+        me_, ot_ = [a.arg for a in m.node.args.args[:2]]
+        for o1 in O:
+            for o2 in O:
+                T1 = ('T', P('py', 'px'), ('O', o1))
+                T2 = ('T', P('qy', 'qx'), ('O', o2))
+                got = gi.call_inplace(m, {me_: T1, ot_: T2})
+                exp = gi.mul(T1, T2)
+                rep.check(got == exp, 'C18.R5', f, f'Transform.{iname}', m.node.lineno,
+                          f'pose *= pose ({o1}, {o2})',
+                          f'`t *= s` with headings ({o1}, {o2}) leaves {got}, but t * s is '
+                          f'{exp}: acting with the composed pose differs from acting '
+                          f'successively', f'in-place compose {o1},{o2}')
 
     # ---- R6 grid rotations
     gl = index.table(GRID, '_grid_rotation_functions').lineno
